@@ -26,7 +26,10 @@ PINS = [("gmp-impl.h", "mpn_addmod_2expp1_1"),
         ("mpn/generic/mulmod_bexpp1.c", "mpn_mulmod_Bexpp1")]
 TRUSTED = ["hand-written limb-level models of the fft/ ring primitives in lean/Mpir/Model/FftRing.lean (run bit-exact against the library on every check)",
            "GCC's arithmetic >> on mp_limb_signed_t (the C files carry that warning) is modelled as floor division of the signed reading"]
-ASSUMPTIONS = ["the FFT transforms themselves (fft_trunc_sqrt2, ifft_*, MFA, negacyclic) and mpir_fft_mulmod_2expp1 are outside this part; "
+ASSUMPTIONS = ["theorems cover: normmod, mul/div_2expmod, adjust, adjust_sqrt2, the radix-2 and sqrt2 butterflies (butterfly_lshB/rshB with x = 0), split/combine, "
+               "mulmod_2expp1_basecase (all b) and mulmod_Bexpp1; the general limb-shift butterflies (x != 0) and the MFA twiddle butterflies are modelled and run "
+               "bit-exact against the library (every (x,y) pair at limbs <= 5) but carry no theorem",
+               "the FFT transforms themselves (fft_trunc_sqrt2, ifft_*, MFA, negacyclic) and mpir_fft_mulmod_2expp1 are outside this part; "
                "mpn_mulmod_2expp1_basecase is modelled on the branch that does not enter the FFT (k != 0 or n <= FFT_MULMOD_2EXPP1_CUTOFF), with mpn_mul_n taken as the exact product"]
 RULE = ("fft ring: limbs 1..12 and a few larger; every shift 0..63 at small sizes and {0,1,31,32,33,62,63} above; every twiddle exponent class "
         "(0, multiples of 64, 64k+-1, the maximum); every (x,y) limb-shift pair of both butterflies at limbs<=5; residues with top limb "
